@@ -5,7 +5,7 @@ W=/tmp/mutwt1-$$
 git -C /repo worktree add --detach $W HEAD -q || exit 3
 (cd $W && git apply /verif/seeded/$n/patch.diff) || { echo "$n: patch does not apply"; git -C /repo worktree remove --force $W; exit 3; }
 for p in "$@"; do
-  out=$(VERIF_REPO=$W python3 /verif/vcheck.py $p --tier $T --no-evidence ${ONLY:+--only $ONLY} 2>&1)
+  out=$(VERIF_REPO=$W python3 /verif/vcheck.py $p --tier $T --no-evidence ${ONLY:+--only=$ONLY} 2>&1)
   echo "$n vs $p: exit=$? violations_printed=$(echo "$out" | grep -c '^VIOLATION') $(echo "$out" | grep -E '^(ENGINE|INSTRUMENT|BUILD)' | head -2 | cut -c1-200)"
   echo "$out" | grep -A1 "^VIOLATION" | grep -v "^VIOLATION\|^--" | head -2 | cut -c1-220
 done
